@@ -29,3 +29,4 @@ def run(ck):
     sampling.r10_transform_flags(ck, P, 'C02-R20')     # the rotate/scale fast paths trust the classification flags; the general path does not
     factors.r21_mmx_lane_consistency(ck, P)
     status.r_same_storage_needs_same_stride(ck, P, 'C02-R22')
+    codec.r15_alphaless_fetchers_force_alpha(ck, P, 'C02-R23')  # the implementations' scanline readers agree on the alpha of alpha-less formats
